@@ -13,13 +13,15 @@ from vlib import lit, ref, tmap
 KINDS = {'s': ['absent', 'str', 'numstr', 'list', 'map'], 'i': ['absent', 'num', 'neg', 'notnum', 'boolish', 'list'],
          'b': ['absent', 'true', 'false', 'yes', 'off', 'five', 'word', 'list'], 'l': ['absent', 'empty', 'nums', 'mixed', 'scalar'],
          'o': ['absent', 'min', 'full', 'noreq', 'extra', 'scalar', 'badm'], 'x': ['absent', 'present'],
-         'p': ['absent', 're', 'badre']}      # a regular-expression pattern (its unserialized form is a compiled expression)
+         'p': ['absent', 're', 'badre'],
+         'm': ['absent', 'ints', 'badkey']}   # a map with integer keys (YAML gives them as they are written; the normal form has integers)      # a regular-expression pattern (its unserialized form is a compiled expression)
 YAMLV = {'s': {'str': 'hello', 'numstr': 12, 'list': ['a'], 'map': {'a': 'b'}},
          'i': {'num': 5, 'neg': -3, 'notnum': 'abc', 'boolish': True, 'list': [1]},
          'b': {'true': True, 'false': False, 'yes': 'yes', 'off': 'off', 'five': 5, 'word': 'abc', 'list': [True]},
          'l': {'empty': [], 'nums': [1, 2], 'mixed': [1, 'x'], 'scalar': 3},
          'o': {'min': {'k': 'v'}, 'full': {'k': 'v', 'm': 4}, 'noreq': {'m': 4}, 'extra': {'k': 'v', 'zzz': 1}, 'scalar': 'str', 'badm': {'k': 'v', 'm': 'abc'}},
-         'x': {'present': 'surplus'}, 'p': {'re': '^ab+c$', 'badre': 'a(b'}}
+         'x': {'present': 'surplus'}, 'p': {'re': '^ab+c$', 'badre': 'a(b'},
+         'm': {'ints': {80: 'http', 443: 'https'}, 'badkey': {'abc': 'x'}}}
 SCHEMA = {'root': 'RootObject', 'objects': {
     'RootObject': {'id': 'RootObject', 'properties': {
         's': {'type': {'type_id': 'string'}, 'required': True},
@@ -27,6 +29,7 @@ SCHEMA = {'root': 'RootObject', 'objects': {
         'b': {'type': {'type_id': 'bool'}, 'required': False},
         'l': {'type': {'type_id': 'list', 'items': {'type_id': 'integer'}}, 'required': False},
         'p': {'type': {'type_id': 'pattern'}, 'required': False},
+        'm': {'type': {'type_id': 'map', 'keys': {'type_id': 'integer'}, 'values': {'type_id': 'string'}}, 'required': False},
         'o': {'type': {'type_id': 'ref', 'id': 'Nested'}, 'required': False}}},
     'Nested': {'id': 'Nested', 'properties': {
         'k': {'type': {'type_id': 'string'}, 'required': True},
@@ -38,6 +41,16 @@ def workflow():
             'steps': {'a': {'kind': 'plugin', 'pstep': 'work', 'fields': {'input': tmap({'id': lit('a'), 'deps': tmap({'all': ref('input')})})}},
                       'b': {'kind': 'plugin', 'pstep': 'nowork', 'fields': {'input': tmap({'id': lit('b'), 'deps': tmap({'i': ref('input.i'), 's': ref('input.s'), 'whole': ref('input'), 'a': ref('steps.a.outputs.success.tok')})})}}},
             'outputs': {'success': tmap({'all': ref('input'), 'i': ref('input.i'), 'b': ref('steps.b.outputs.success.tok')})}}
+
+
+def workflow_lookup():
+    """the same, plus an expression that looks a value up in the integer-keyed map by an integer key (used for the documents
+    that give the map)"""
+    from vlib import fexpr
+    wf = workflow()
+    wf['outputs']['success']['kids']['k80'] = fexpr('$.input.m[80]', ['input'])
+    wf['steps']['b']['fields']['input']['kids']['deps']['kids']['k443'] = fexpr('$.input.m[443]', ['input'])
+    return wf
 
 
 EMPTY_SCHEMA = {'root': 'RootObject', 'objects': {'RootObject': {'id': 'RootObject', 'properties': {}}}}
@@ -57,7 +70,7 @@ def doc_yaml(d):
         return 'hello\n'
     v = {}
     for f, k in d.items():
-        if f in ('w', 'schema'):
+        if f in ('w', 'schema') or f.startswith('_'):
             continue
         if k != 'absent':
             v['zz_surplus' if f == 'x' else f] = YAMLV[f][k]
@@ -101,7 +114,7 @@ def run(ctx):
     docs = []
     seen = set()
     # all single-field deviations from a valid base document, then random combinations
-    base = {'s': 'str', 'i': 'num', 'b': 'true', 'l': 'nums', 'o': 'full', 'x': 'absent', 'p': 're', 'w': 'map', 'schema': 'full'}
+    base = {'s': 'str', 'i': 'num', 'b': 'true', 'l': 'nums', 'o': 'full', 'x': 'absent', 'p': 're', 'm': 'absent', 'w': 'map', 'schema': 'full'}
     for f, ks in KINDS.items():
         for k in ks:
             docs.append(dict(base, **{f: k}))
@@ -110,7 +123,7 @@ def run(ctx):
     mini = dict(base, i='absent', b='absent', l='absent', o='absent')
     docs += [dict(mini), dict(mini, s='numstr'), dict(mini, o='min'), dict(mini, o='full'), dict(mini, l='empty'), dict(mini, b='true'), dict(mini, i='num')]
     # the schema without properties: the empty map, one surplus key of each kind, and non-map documents
-    ebase = {'s': 'absent', 'i': 'absent', 'b': 'absent', 'l': 'absent', 'o': 'absent', 'x': 'absent', 'p': 'absent', 'w': 'map', 'schema': 'empty'}
+    ebase = {'s': 'absent', 'i': 'absent', 'b': 'absent', 'l': 'absent', 'o': 'absent', 'x': 'absent', 'p': 'absent', 'm': 'absent', 'w': 'map', 'schema': 'empty'}
     docs += [dict(ebase), dict(ebase, x='present'), dict(ebase, s='str'), dict(ebase, i='num'), dict(ebase, l='nums'), dict(ebase, o='min'),
              dict(ebase, w='list'), dict(ebase, w='scalar')]
     while len(docs) < n:
@@ -131,11 +144,13 @@ def run(ctx):
         return
     st = vlib.tlc_stats(out)
     ctx.cov(states=st.get('distinct', 0), transitions=st.get('generated', 0))
-    wfs = {'full': workflow(), 'empty': workflow_empty()}
+    wfs = {'full': workflow(), 'empty': workflow_empty(), 'full+lookup': workflow_lookup()}
+    for d in docs:
+        d['_wf'] = 'full+lookup' if d['schema'] == 'full' and d.get('m') == 'ints' else d['schema']
     binary = ctx.binary()
     scs = []
     for d in docs:
-        wf = wfs[d['schema']]
+        wf = wfs[d['_wf']]
         sc = gen.make_scenario(wf, {}, {}, gen.noise_schedule(rng), timeout_ms=20000)
         sc['engine'] = True
         sc['runs'] = [{'input_yaml': doc_yaml(d)}]
@@ -149,7 +164,8 @@ def run(ctx):
         rp = {'kind': 'engine-scenario', 'how': 'verifh run <scenario> (engine mode)', 'scenario': r['scenario'], 'doc': d}
         if res is None or r['code'] != 0:
             if engine_check.engine_panic(r['stderr'] or ''):
-                ctx.add('C11', 'process-crashed-on-input', engine_check.first_panic_line(r['stderr']), rp)
+                # a valid document that brings the engine down is a valid input that was not honoured
+                ctx.add('C19' if valid else 'C11', 'process-crashed-on-input', engine_check.first_panic_line(r['stderr']), rp)
             else:
                 ctx.inconclusive('harness died: ' + (r['stderr'] or '')[-300:])
             continue
@@ -159,9 +175,8 @@ def run(ctx):
         rr = res['runs'][0]
         evs = vlib.read_trace(r['trace'])
         deployed = [e for e in evs if e['ev'] == 'XDeployBegin' and e.get('phase') == 'run']
-        wf = wfs[d['schema']]
-        wf = wfs[d['schema']]
-        tag = ','.join('%s=%s' % (f, k) for f, k in sorted(d.items()) if k != base[f]) or 'base'
+        wf = wfs[d['_wf']]
+        tag = ','.join('%s=%s' % (f, k) for f, k in sorted(d.items()) if not f.startswith('_') and k != base[f]) or 'base'
         if not valid:
             if not rr['is_err']:
                 ctx.add('C19', 'invalid-input-accepted', tag, rp)
